@@ -257,7 +257,7 @@ PROPS = {
             "JSON documents have unique keys, int64-range integers and finite floats; noise lines are not JSON from their first byte",
             "the mock storage applies offloaded matchers with the reference semantics (storage contract)",
         ],
-        "quick": [rapid("TestC01", 3000)],
+        "quick": [rapid("TestC01", 5000)],
         "thorough": [rapid("TestC01", 100000, shards=16, timeout=3000)],
     },
     "C08": {
